@@ -63,7 +63,10 @@ Definition c01_item (univ : list addr) (m : m01) (it : item) : bool * m01 :=
        end
     (* replaying every event emitted since genesis reproduces every balance and the supply *)
     && forallb (fun a => getd (fst ld) a =? bal_of cur a) univ
-    && (snd ld =? o_supply cur) in
+    && (snd ld =? o_supply cur)
+    (* persistence: time passing alone changes nothing (balances and supply: no_move above; the
+       flavour's other stored state: here) *)
+    && advance_keeps_extras prev cur cl out in
   (ok, {| m_prev := cur; m_led := fst ld; m_sup := snd ld |}).
 
 Fixpoint c01_from (univ : list addr) (m : m01) (items : list item) (i : N) : N :=
@@ -79,7 +82,8 @@ Definition c01_monitor (t : trace) : N := c01_from (t_univ t) (m01_init (t_start
 
 (* triage helper (not used by the driver): at the first failing call, which clause is false
    1 = supply <> sum of balances, 2 = negative balance, 3 = failing call left a trace,
-   4 = wrong delta for a successful call, 5 = event replay does not reproduce the balances *)
+   4 = wrong delta for a successful call (incl. any change across an Advance), 5 = event replay does not
+   reproduce the balances, 6 = a flavour getter changed across an Advance *)
 Definition c01_item_why (univ : list addr) (m : m01) (it : item) : N :=
   let '(cl, out, evs, cur) := it in
   let prev := m_prev m in
@@ -89,6 +93,7 @@ Definition c01_item_why (univ : list addr) (m : m01) (it : item) : N :=
   else if negb (match out with Fail => same_token univ prev cur && is_nil evs | Ok _ => true end) then 3%N
   else if negb (match out with Fail => true | Ok v => moved_ok univ prev cur (expected_move prev cl v) end) then 4%N
   else if negb (forallb (fun a => getd (fst ld) a =? bal_of cur a) univ && (snd ld =? o_supply cur)) then 5%N
+  else if negb (advance_keeps_extras prev cur cl out) then 6%N
   else 0%N.
 Fixpoint c01_why_from (univ : list addr) (m : m01) (items : list item) (i : N) : N * N :=
   match items with
